@@ -93,9 +93,13 @@ def _key(k):
     return repr(k)
 
 
-def _run_z3py(smt2, timeout_ms):
+def _run_z3py(smt2, timeout_ms, seed=0):
     s = z3.Solver()
     s.set('timeout', timeout_ms)
+    if seed:
+        # z3's sequence solver gives up (or runs away) on some inputs depending on its random choices
+        s.set('random_seed', seed)
+        s.set('seed', seed) if False else None
     s.from_string(smt2)
     t0 = time.time()
     r = s.check()
@@ -107,7 +111,12 @@ def _run_z3py(smt2, timeout_ms):
         for d in m.decls():
             if d.arity() == 0:
                 model[d.name()] = _pyval(m[d], m)
+    if r == z3.unknown:
+        _last_reason[0] = s.reason_unknown()
     return str(r), model, dt
+
+
+_last_reason = ['']
 
 
 _dl_counter = [0]
@@ -365,10 +374,10 @@ def discharge_one(job):
     res = {'id': job['id'], 'status': 'unknown', 'solver': None, 'time_s': 0.0, 'model': None,
            'tried': []}
     try:
-        r, model, dt = _run_z3py(smt2, timeout_ms)
+        r, model, dt = _run_z3py(smt2, timeout_ms, job.get('z3_seed', 0))
     except Exception as e:      # parse problems etc. -> undecided, never a violation
         r, model, dt = 'error:%s' % e, None, 0.0
-    res['tried'].append(('z3-%s' % z3.get_version_string(), r, round(dt, 3)))
+    res['tried'].append(('z3-%s' % z3.get_version_string(), r if r != 'unknown' else 'unknown(%s)' % _last_reason[0][:60], round(dt, 3)))
     res['time_s'] += dt
     nolam = None
     if r not in ('sat', 'unsat') and 'lambda' in smt2:
